@@ -641,6 +641,15 @@ class AdditiveKernel(Kernel):
 
         return new_kernel
 
+    def expand_batch(self, *sizes: Union[torch.Size, Tuple[int, ...]]) -> Kernel:
+        # the component kernels live in a ModuleList: expand each of them (the generic implementation
+        # would assign the expanded copies to attributes named "kernels.<i>" and leave the components as they are)
+        new_kernel = deepcopy(self)
+        for i, kernel in enumerate(self.kernels):
+            new_kernel.kernels[i] = kernel.expand_batch(*sizes)
+
+        return new_kernel
+
 
 class ProductKernel(Kernel):
     """
@@ -695,5 +704,14 @@ class ProductKernel(Kernel):
         new_kernel = deepcopy(self)
         for i, kernel in enumerate(self.kernels):
             new_kernel.kernels[i] = kernel.__getitem__(index)
+
+        return new_kernel
+
+    def expand_batch(self, *sizes: Union[torch.Size, Tuple[int, ...]]) -> Kernel:
+        # the component kernels live in a ModuleList: expand each of them (the generic implementation
+        # would assign the expanded copies to attributes named "kernels.<i>" and leave the components as they are)
+        new_kernel = deepcopy(self)
+        for i, kernel in enumerate(self.kernels):
+            new_kernel.kernels[i] = kernel.expand_batch(*sizes)
 
         return new_kernel
